@@ -21,6 +21,16 @@ def run(run):
             if quick and rng.random() < 0.5:
                 continue
             look.append(f"lonlat_to_cell {geo.hx(lon)} {geo.hx(lat)} {r}")
+    # cells next to a pole (centroid beyond 89.99 degrees: the polar branch of normalize_longitudes) that straddle the antimeridian
+    # or the +87 / -93 degree meridians (the branch cut of the internal frame) without touching the pole
+    polar = []
+    for r in range(10, 30):
+        for eps in (9e-3, 5e-3, 1e-3, 1e-4, 1e-5, 1e-6):
+            for lon in (180.0, -180.0, 179.9995, -179.998, 87.0, -93.0, 87.0004, 0.0):
+                for sgn in (1, -1):
+                    polar.append(f"lonlat_to_cell {geo.hx(lon)} {geo.hx(sgn * (90.0 - eps))} {r}")
+    rng.shuffle(polar)
+    look += polar[: (160 if quick else len(polar))]
     li = core.impl_only(run, look)
     cells = [int(a.split()[1]) for a in li if a.startswith("ok ")]
     cells += [gen.rand_cell(rng, rng.randint(0, 29)) for _ in range(200 if quick else 8000)]
@@ -97,7 +107,7 @@ def run(run):
             corners[key] = cs
         if abs(lons[0]) > 170 or touches_pole:
             run.nontrivial.add((c, n, closed))
-    run.rule = ("cells: lookups on the antimeridian and at / next to both poles at every resolution, all base cells, quintants, random cells to r=29; "
+    run.rule = ("cells: lookups on the antimeridian and at / next to both poles at every resolution, cells 1e-6 .. 9e-3 degrees from a pole on the antimeridian and on the internal frame's branch cut (r = 10..29), all base cells, quintants, random cells to r=29; "
                 "x closed/open ring x subdivision n in {1, 2|3|7, 5|16|64, default}; checks: length, closure, finite coordinates, latitude range, counter-clockwise (positive spherical area), "
                 "centre inside (independent winding test), 180-degree longitude window unless the cell touches a pole, corner points identical across n; "
                 "non-trivial = distinct (cell, n, closed) cases on the antimeridian or touching a pole")
